@@ -82,6 +82,12 @@ def mk(cfg, fs):
                                        **_kw(cfg, {'pol': 'polarity', 'window': 'window'}))
     if t == 'square':
         return stim.SquareWaveFactory(fs, cfg['level'], cfg['freq'], cfg['duty'])
+    if t == 'wavseq':
+        f = stim.WavSequenceFactory(fs, wavseq_dir(), **_kw(cfg, {'norm': 'normalization'}))
+        # the class takes the files in directory-listing order: fix the order here so that runs are reproducible
+        f.wav_files.sort(key=lambda w: str(w.filename))
+        f.reset()
+        return f
     if t == 'fixed':
         if cfg.get('cls') == 'click':
             from psiaudio.calibration import FlatCalibration
@@ -128,6 +134,19 @@ def shaped_gains(fs):
     return {0: -20, fs / 8: 0, fs / 4: -6, fs / 2: -40}
 
 
+def wavseq_dir():
+    """a directory with three short 16-bit wav files (7, 11 and 5 samples at 1000 Hz) for WavSequenceFactory"""
+    import os
+    from scipy.io import wavfile
+    d = os.path.join(os.path.dirname(os.path.dirname(os.path.abspath(__file__))), 'work', 'wavseq')
+    os.makedirs(d, exist_ok=True)
+    for i, n in enumerate([7, 11, 5]):
+        path = os.path.join(d, f's{i}.wav')
+        if not os.path.exists(path):
+            wavfile.write(path, 1000, (np.arange(n) * 100 + 1000 * i + 50).astype(np.int16))
+    return d
+
+
 def _wav_path(n, fs):
     """a small 16-bit wav file (written once per (n, rate)) under /verif/work"""
     import os
@@ -164,7 +183,7 @@ def fixed_array(cfg, fs=None):
     return np.asarray(fixed_raw(cfg), dtype=float)
 
 
-CARRIERS = ('tone', 'samtone', 'silence', 'bbnoise', 'blnoise', 'firnoise', 'shaped')
+CARRIERS = ('tone', 'samtone', 'silence', 'bbnoise', 'blnoise', 'firnoise', 'shaped', 'wavseq')
 FIR = ('firnoise', 'shaped')
 
 
